@@ -39,10 +39,12 @@ package boltz
 //@   modifies *
 
 //@ func (*DbImpl).Update$1
-//@   props C07
+//@   props C07 C08
 //@   errflow
 //@   nosafety
-//@   modifies *
+//@   modifies *, ctxTx, ocCnt, ocFn, ocRecv
+//@   lensures[tx-complete-listeners-registered-once-last] result == nil && txCompleteListeners != nil ==> sel(ocFn[tx], ocCnt[tx] - 1) == fnid("(*github.com/openziti/storage/boltz.DbImpl).Update$1$1")
+//@   lensures[no-listeners-no-registration] result == nil && txCompleteListeners == nil ==> true
 
 //@ func (*EntityChangeState).init
 //@   props C07 C08
@@ -56,7 +58,8 @@ package boltz
 //@   props C07
 //@   errflow
 //@   nosafety
-//@   modifies *
+//@   waive immutable two-step construction: the final state is loaded once, right after the write, before the state is handed to anything
+//@   modifies *, self.FinalState
 
 //@ func (*LinkedSetSymbol).AddCompoundLink
 //@   props C07
@@ -323,11 +326,6 @@ package boltz
 // transaction code fails its precondition. They are reached only as callbacks handed to
 // bbolt's Tx.OnCommit (trusted: bbolt runs them after a successful commit, once each).
 //@ ghost committed : Bool
-//@ func (*EntityChangeState).processPostCommit
-//@   props C07 C08
-//@   nosafety
-//@   requires[after-commit] committed
-//@   modifies *
 //@ func (*mutateContext).handleCommit
 //@   props C07 C08
 //@   nosafety
